@@ -107,7 +107,7 @@ class IMUPreintegrator(nn.Module):
             gyro_cov = torch.tensor([[gyro_cov, gyro_cov, gyro_cov]])
 
         # Initial status of IMU: (pos)ition, (rot)ation, (vel)ocity, (cov)ariance
-        self.register_buffer('gravity', torch.tensor([0, 0, gravity]), persistent=False)
+        self.register_buffer('gravity', torch.tensor([0, 0, float(gravity)]), persistent=False)
         self.register_buffer('pos', self._check(pos).clone(), persistent=False)
         self.register_buffer('rot', self._check(rot).clone(), persistent=False)
         self.register_buffer('vel', self._check(vel).clone(), persistent=False)
